@@ -90,3 +90,26 @@ package contracts
 //@   modifies nEncoded, lastEncoded
 //@   ghostset nEncoded := nEncoded + 1
 //@   ghostset lastEncoded := v
+
+// Ghost log of a stream decoder: the targets of the Decode calls that returned no error, in call
+// order, and the latest result. What the decoder makes of the bytes is assumed.
+//@ ghost nDecoded int
+//@ ghost decodedInto map[int]interface{}
+//@ ghost lastDecErr error
+//@ trusted func (*Decoder).Decode
+//@   modifies nDecoded, decodedInto, lastDecErr
+//@   ghostset lastDecErr := result
+//@   ensures result == nil ==> nDecoded == old(nDecoded) + 1 && decodedInto[old(nDecoded)] == v
+//@   ensures result != nil ==> nDecoded == old(nDecoded)
+//@   ensures forall(k, 0, old(nDecoded), decodedInto[k] == old(decodedInto[k]))
+
+//@ package gopkg.in/yaml.v3
+//@ ghost nDecoded int
+//@ ghost decodedInto map[int]interface{}
+//@ ghost lastDecErr error
+//@ trusted func (*Decoder).Decode
+//@   modifies nDecoded, decodedInto, lastDecErr
+//@   ghostset lastDecErr := result
+//@   ensures result == nil ==> nDecoded == old(nDecoded) + 1 && decodedInto[old(nDecoded)] == v
+//@   ensures result != nil ==> nDecoded == old(nDecoded)
+//@   ensures forall(k, 0, old(nDecoded), decodedInto[k] == old(decodedInto[k]))
